@@ -18,7 +18,11 @@ what a cut query records, repair of cut queries in later sessions) is model-chec
 by the model with its prediction (value of every query, every executor run with its
 reads and output / cut) are replayed and compared; the counterexamples of the variant
 the code does NOT implement (SccFix = "retain", the defect FX_SCC_VALUE_RETAINED) are
-replayed as directed tests."""
+replayed as directed tests.  Concurrency: specs/EngineConc.tla (single-flight protocol)
+carries the cycle protocol - registered callees, check_cyclic over the computing table, marking,
+unwinding, the re-check after a value was obtained; TLC checks deadlock freedom, progress and that
+exactly the members of a cycle publish their default for 2-3 tasks entering rings at different
+members, refutes two mutations, and its schedules are forced on the real engine (conc_sched)."""
 import json
 import os
 import time
@@ -142,6 +146,59 @@ def engine_cyc(bd, wd, quick, seed, traces, case_files, verdict):
     return ev, states
 
 
+def conc_cycle_protocol(bd, wd, quick, seed, traces, verdict):
+    """EngineConc with dependency cycles: design check (as coded + liveness + two mutations) and TLC schedules
+    forced on the real engine through the cfg-guarded points (conc_sched)."""
+    ev = {}
+    states = 0
+    held = {}
+    for cfg in ("cycR2", "cycR3", "cycSL"):
+        r = vp.tlc("MCEngineConc", cfg=f"EngineConc_{cfg}.cfg", workers=2, timeout=900, check_ok=False)
+        held[cfg] = r["ok"]; states += r["distinct"]
+        if not r["ok"]:
+            raise vp.ToolError(f"EngineConc ({cfg}) violates its invariants as coded:\n" + r["out"][-2500:])
+    for cfg in ("cycR2_live", "cycR3_live"):
+        r = vp.tlc("MCEngineConc", cfg=f"EngineConc_{cfg}.cfg", workers=1, timeout=900, check_ok=False)
+        held[cfg] = r["ok"]; states += r["distinct"]
+        if not r["ok"]:
+            raise vp.ToolError(f"EngineConc ({cfg}): Progress does not hold as coded:\n" + r["out"][-2500:])
+    m1 = vp.tlc("MCEngineConc", cfg="EngineConc_cyc_reglate.cfg", workers=1, timeout=600, check_ok=False)
+    m2 = vp.tlc("MCEngineConc", cfg="EngineConc_cyc_markcaller.cfg", workers=1, timeout=600, check_ok=False)
+    ev["design"] = {"as_coded_holds": held,
+                    "invariants": ["SingleFlight", "OncePerEpoch", "NoOrphanWaiter", "NoStall", "CutOnlyOnCycle", "CutExact"],
+                    "liveness": "Progress under weak fairness (2 tasks)",
+                    "mutation_RegisterLate_refuted": "NoStall" in m1["invariant_violated"],
+                    "mutation_MarkCallerOnly_refuted": "CutExact" in m2["invariant_violated"]}
+    if not (ev["design"]["mutation_RegisterLate_refuted"] and ev["design"]["mutation_MarkCallerOnly_refuted"]):
+        raise vp.ToolError("EngineConc: a cycle mutation is not refuted by TLC (vacuous invariants?)")
+    cases = os.path.join(wd, "sched_cyc.cases")
+    g = vp.run(["python3", os.path.join(vp.ROOT, "tools", "gen_conc.py"), cases, str(seed), "40" if quick else "800", "cyclic"],
+               timeout=2400, env={"VH_TMP": vp.workdir(PID, "tlcgen")})
+    ginfo = json.loads(g.stdout.strip().splitlines()[-1])
+    tr = os.path.join(wd, "sched_cyc.ndjson")
+    resf = os.path.join(wd, "sched_cyc.res")
+    vp.run_subject([os.path.join(bd, "conc_sched"), "--in", cases, "--out", tr, "--res", resf], timeout=3000)
+    sres = vp.read_ndjson(resf)
+    scases = vp.read_ndjson(cases)
+    ev["schedule_replay"] = {"behaviours_generated_by_TLC": ginfo["behaviours"], "steps": ginfo["steps"],
+                             "distinct_schedules": len({json.dumps(c["steps"]) for c in scases}),
+                             "steps_followed_exactly": sum(r["followed"] for r in sres),
+                             "schedules_followed_to_the_end": sum(1 for r in sres if r["drift"] is None and not r["hang"]),
+                             "model_drift": sum(1 for r in sres if r["drift"] is not None and not r["hang"]),
+                             "first_drift": next((r for r in sres if r["drift"] is not None and not r["hang"]), None),
+                             "hangs": sum(1 for r in sres if r["hang"])}
+    for r in [r for r in sres if r["hang"]][:3]:
+        verdict.violation(f"no_progress: schedule {r['case']} of the cycle protocol does not complete, not even when the tasks "
+                          f"run freely after step {r['followed']} ({r['drift']})",
+                          {"property": PID, "kind": "no_progress", "origin": "EngineConcGen cyclic schedule replay",
+                           "case": scases[r["case"]], "result": r})
+    if ev["schedule_replay"]["model_drift"]:
+        vp.log(f"[C06] MODEL-DRIFT: {ev['schedule_replay']['model_drift']} cyclic schedules left the specification: "
+               f"{ev['schedule_replay']['first_drift']}")
+    traces.append((tr, "EngineConc cyclic schedules forced on the engine"))
+    return ev, states + ginfo["steps"]
+
+
 def run(tier, seed):
     t0 = time.time()
     bd = vp.build()
@@ -212,6 +269,8 @@ def run(tier, seed):
         traces.append((tc, f"concurrent entry workers={workers} tasks={tasks}"))
     case_files = {tr: cases}
     cyc_mechanism, cyc_states = engine_cyc(bd, wd, quick, seed, traces, case_files, verdict)
+    conc_cyc, conc_states = conc_cycle_protocol(bd, wd, quick, seed, traces, verdict)
+    cyc_states += conc_states
     # design level: the cycle search transcribed step by step (CycleSearch.tla) meets its contract on every
     # digraph of 4 computing queries in every breadth-first order; its two mutations are refuted
     cs = vp.tlc("CycleSearch", cfg="CycleSearch_asis.cfg", workers=4, timeout=900, check_ok=False, xmx="6g")
@@ -262,6 +321,7 @@ def run(tier, seed):
         "samples": [{"tlc_generated_case": sample_case}],
         "cycle_search_model": cycle_search_model,
         "cycle_mechanism_model_EngineCyc": cyc_mechanism,
+        "concurrent_cycle_protocol_EngineConc": conc_cyc,
         "cyclic_programs": nprogs,
         "histories_from_tlc": nb,
         "events_validated": events,
